@@ -1,7 +1,7 @@
 #!/bin/bash
 # dev helper: run vcheck for ids with the chk+batch binary and summarise
 B=${VB:-/verif/target/chk-plus-batch/release/vcheck}
-for p in "$@"; do echo "== $p"; ( time $B $p ${TIER:+--tier $TIER} --seed ${SEED:-1} --out /tmp/$p.json ) 2>&1 | grep real; python3 -c "
+for p in "$@"; do echo "== $p"; rm -f /tmp/$p.json; ( time $B $p ${TIER:+--tier $TIER} --seed ${SEED:-1} --out /tmp/$p.json; echo "exit=$?" ) 2>&1 | grep -E "real|exit=[^01]|HARNESS"; python3 -c "
 import json; d=json.load(open('/tmp/$p.json'))
 for s in d['sections']: print(' ', s['name'], s['evaluations'], s['distinct_nontrivial'], s['violations'], s.get('labels') if '$LABELS' else '')
 for v in d['violations'][:${NV:-4}]: print('  V', v['section'], v['signature'], v['reason'][:400]); print('    ', json.dumps(v['case'])[:${CL:-500}])"; done
